@@ -1,21 +1,521 @@
 //go:build verif
 
+// C04 — ML-DSA = FIPS 204, Dilithium = round 3.1 (black-box part).
+//
+// Oracle: zz_verif/ref/mldsa (independent reference, self-tested against NIST
+// ACVP vectors and the published KAT digests of the pq-crystals code).
 package c04
 
 import (
+	"bytes"
+	"fmt"
+	"sync"
 	"testing"
-	"time"
 
+	"github.com/cloudflare/circl/sign"
 	"github.com/cloudflare/circl/zz_verif/ref/mldsa"
 	"github.com/cloudflare/circl/zz_verif/vlib"
+	"pgregory.net/rapid"
 )
 
-func TestC04Selftest(t *testing.T) {
-	defer vlib.Done()
-	t0 := time.Now()
-	note, err := mldsa.SelfTest(vlib.Harness, true)
-	if err != nil {
-		t.Fatalf("SELFTEST-FAIL ref/mldsa: %v", err)
+type scheme struct {
+	name                    string
+	ctx                     bool
+	sch                     sign.Scheme
+	pkSize, skSize, sigSize int
+	derive                  func(seed []byte) (pk, sk interface{}, pkb, skb []byte)
+	signTo                  func(sk interface{}, msg, ctx []byte) ([]byte, error)
+	verify                  func(pk interface{}, msg, ctx, sig []byte) bool
+	unpackPK                func(b []byte) interface{}
+	unpackSK                func(b []byte) interface{}
+	public                  func(sk interface{}) []byte
+	p                       *mldsa.Params
+}
+
+var schemes []*scheme
+
+func register(s *scheme) {
+	s.p = mldsa.ByName(s.name)
+	schemes = append(schemes, s)
+}
+
+var stOnce sync.Once
+
+// selftest validates the reference once per process (exit 2 on failure).
+func selftest(t *testing.T) {
+	t.Helper()
+	stOnce.Do(func() {
+		note, err := mldsa.SelfTest(vlib.Harness, true)
+		if err != nil {
+			vlib.Selftest("ref/mldsa", "FAIL: "+err.Error())
+			vlib.Done()
+			t.Fatalf("SELFTEST-FAIL ref/mldsa: %v", err)
+		}
+		vlib.Selftest("ref/mldsa", note)
+	})
+	for _, s := range schemes {
+		if s.p == nil {
+			t.Fatalf("SELFTEST-FAIL no reference parameter set for %s", s.name)
+		}
 	}
-	t.Logf("%s in %v", note, time.Since(t0))
+}
+
+func drawCtx(t *rapid.T, s *scheme) []byte {
+	if !s.ctx {
+		return nil
+	}
+	switch rapid.IntRange(0, 7).Draw(t, "ctx.kind") {
+	case 0:
+		return nil
+	case 1:
+		return []byte{}
+	case 2:
+		b := make([]byte, 255)
+		vlib.FillRandom(t, b, "ctx")
+		return b
+	case 3:
+		return []byte{rapid.Byte().Draw(t, "ctx.b")}
+	default:
+		return vlib.Bytes(t, 0, 255, "ctx")
+	}
+}
+
+func ctxClass(ctx []byte) string {
+	switch {
+	case ctx == nil:
+		return "ctx=nil"
+	case len(ctx) == 0:
+		return "ctx=empty"
+	case len(ctx) == 255:
+		return "ctx=255"
+	}
+	return "ctx=1..254"
+}
+
+type honest struct {
+	s              *scheme
+	seed, msg, ctx []byte
+	pk, sk         interface{}
+	pkb, skb       []byte
+	sig            []byte
+	tr             *mldsa.Trace
+}
+
+func (h *honest) id() [][]byte { return [][]byte{h.seed, h.msg, h.ctx} }
+
+// makeHonest runs key generation and deterministic signing in circl and in the
+// reference and compares all bytes (oracle R).
+func makeHonest(t vlib.TB, s *scheme, seed, msg, ctx []byte) (*honest, bool) {
+	name := s.name
+	p := s.p
+	h := &honest{s: s, seed: seed, msg: msg, ctx: ctx}
+	if s.pkSize != p.PKSize() || s.skSize != p.SKSize() || s.sigSize != p.SigSize() {
+		vlib.Report(t, "C04/size/"+name, fmt.Sprintf("circl sizes pk/sk/sig %d/%d/%d, specification %d/%d/%d", s.pkSize, s.skSize, s.sigSize, p.PKSize(), p.SKSize(), p.SigSize()))
+		return nil, false
+	}
+	var cpkb, cskb []byte
+	if pn, st := vlib.Catch(func() { h.pk, h.sk, cpkb, cskb = s.derive(seed) }); pn != nil {
+		vlib.Report(t, "C04/panic/"+name+"/NewKeyFromSeed/"+vlib.PanicClass(pn), fmt.Sprintf("seed %x: %v\n%s", seed, pn, st))
+		return nil, false
+	}
+	h.pkb, h.skb = p.KeyGen(seed)
+	if !bytes.Equal(cpkb, h.pkb) {
+		if vlib.Report(t, "C04/keygen/"+name+"/pk", fmt.Sprintf("seed %x: circl pk %s, specification %s", seed, vlib.Hex(cpkb), vlib.Hex(h.pkb))) {
+			return nil, false
+		}
+	}
+	if !bytes.Equal(cskb, h.skb) {
+		if vlib.Report(t, "C04/keygen/"+name+"/sk", fmt.Sprintf("seed %x: circl sk differs from the specification (first difference at byte %d)", seed, firstDiff(cskb, h.skb))) {
+			return nil, false
+		}
+	}
+	h.sig, h.tr = p.Sign(h.skb, msg, ctx, make([]byte, 32))
+	var csig []byte
+	var err error
+	if pn, st := vlib.Catch(func() { csig, err = s.signTo(h.sk, msg, ctx) }); pn != nil {
+		vlib.Report(t, "C04/panic/"+name+"/SignTo/"+vlib.PanicClass(pn), fmt.Sprintf("seed %x msg %s ctx %s: %v\n%s", seed, vlib.Hex(msg), vlib.Hex(ctx), pn, st))
+		return nil, false
+	}
+	if err != nil {
+		vlib.Report(t, "C04/sign/"+name+"/error", fmt.Sprintf("seed %x |ctx|=%d: SignTo returned %v", seed, len(ctx), err))
+		return nil, false
+	}
+	if !bytes.Equal(csig, h.sig) {
+		if vlib.Report(t, "C04/sign/"+name+"/deterministic", fmt.Sprintf("seed %x msg %s ctx %s: circl signature differs from the specification at byte %d (reference needed %d rounds)", seed, vlib.Hex(msg), vlib.Hex(ctx), firstDiff(csig, h.sig), len(h.tr.Rounds))) {
+			return nil, false
+		}
+	}
+	return h, true
+}
+
+func firstDiff(a, b []byte) int {
+	for i := 0; i < len(a) && i < len(b); i++ {
+		if a[i] != b[i] {
+			return i
+		}
+	}
+	if len(a) != len(b) {
+		if len(a) < len(b) {
+			return len(a)
+		}
+		return len(b)
+	}
+	return -1
+}
+
+func traceClasses(sub string, h *honest) {
+	n := len(h.tr.Rounds)
+	switch {
+	case n == 1:
+		vlib.Class(sub, "rounds=1")
+	case n <= 4:
+		vlib.Class(sub, "rounds=2..4")
+	case n <= 10:
+		vlib.Class(sub, "rounds=5..10")
+	default:
+		vlib.Class(sub, "rounds>10")
+	}
+	z, r0, ct0, hint := h.tr.Counts()
+	if z > 0 {
+		vlib.Class(sub, "branch=z-norm")
+	}
+	if r0 > 0 {
+		vlib.Class(sub, "branch=r0-norm")
+	}
+	if ct0 > 0 {
+		vlib.Class(sub, "branch=ct0-overflow")
+	}
+	if hint > 0 {
+		vlib.Class(sub, "branch=hint-weight>omega")
+	}
+	if n >= 2 {
+		cls := "signing-needed>=2-rounds"
+		vlib.NonTrivial(sub, cls, h.id()...)
+	}
+}
+
+// TestC04Transcript: pk, sk and deterministic signature bytes equal the
+// reference for generated (seed, msg, ctx); the honest signature verifies; keys
+// rebuilt from their encodings behave identically.
+func TestC04Transcript(t *testing.T) {
+	defer vlib.Done()
+	selftest(t)
+	for _, s := range schemes {
+		s := s
+		t.Run(s.name, func(t *testing.T) {
+			sub := "transcript/" + s.name
+			vlib.Check(t, vlib.N(50, 900), func(t *rapid.T) {
+				seed := vlib.EdgeBytes(t, 32, "seed")
+				msg := vlib.Msg(t, "msg")
+				ctx := drawCtx(t, s)
+				vlib.Eval(sub)
+				if s.ctx {
+					vlib.Class(sub, ctxClass(ctx))
+				}
+				h, ok := makeHonest(t, s, seed, msg, ctx)
+				if !ok {
+					return
+				}
+				traceClasses(sub, h)
+				if len(h.tr.Rounds) >= 2 {
+					vlib.Sample(sub, "multi-round", fmt.Sprintf("scheme=%s seed=%x |msg|=%d |ctx|=%d rounds=%d trace=%+v → signature bytes equal", s.name, seed, len(msg), len(ctx), len(h.tr.Rounds), h.tr.Rounds))
+				}
+				if !s.verify(h.pk, msg, ctx, h.sig) {
+					if vlib.Report(t, "C04/verify-verdict/"+s.name+"/honest", fmt.Sprintf("seed %x msg %s ctx %s: honest signature rejected", seed, vlib.Hex(msg), vlib.Hex(ctx))) {
+						return
+					}
+				}
+				switch rapid.IntRange(0, 3).Draw(t, "extra") {
+				case 0:
+					// keys rebuilt from bytes
+					sk2 := s.unpackSK(h.skb)
+					pk2 := s.unpackPK(h.pkb)
+					sig2, err := s.signTo(sk2, msg, ctx)
+					if err != nil || !bytes.Equal(sig2, h.sig) {
+						if vlib.Report(t, "C04/sign/"+s.name+"/unpacked-sk", fmt.Sprintf("seed %x: signing with the unpacked private key: err=%v, differs at %d", seed, err, firstDiff(sig2, h.sig))) {
+							return
+						}
+					}
+					if !s.verify(pk2, msg, ctx, h.sig) {
+						if vlib.Report(t, "C04/verify-verdict/"+s.name+"/unpacked-pk", fmt.Sprintf("seed %x: honest signature rejected by the unpacked public key", seed)) {
+							return
+						}
+					}
+					if pb := s.public(sk2); !bytes.Equal(pb, h.pkb) {
+						if vlib.Report(t, "C04/keygen/"+s.name+"/Public", fmt.Sprintf("seed %x: sk.Public() = %s, pk = %s", seed, vlib.Hex(pb), vlib.Hex(h.pkb))) {
+							return
+						}
+					}
+					vlib.Class(sub, "unpacked-keys")
+				case 1:
+					// generic sign.Scheme API
+					if len(ctx) == 0 || s.ctx {
+						opts := &sign.SignatureOpts{Context: string(ctx)}
+						sig3 := s.sch.Sign(h.sk.(sign.PrivateKey), msg, opts)
+						if !bytes.Equal(sig3, h.sig) {
+							if vlib.Report(t, "C04/sign/"+s.name+"/scheme-api", fmt.Sprintf("seed %x: Scheme().Sign differs at %d", seed, firstDiff(sig3, h.sig))) {
+								return
+							}
+						}
+						if !s.sch.Verify(h.pk.(sign.PublicKey), msg, h.sig, opts) {
+							if vlib.Report(t, "C04/verify-verdict/"+s.name+"/scheme-api", fmt.Sprintf("seed %x: Scheme().Verify rejects the honest signature", seed)) {
+								return
+							}
+						}
+						pk4, sk4 := s.sch.DeriveKey(seed)
+						b4, _ := pk4.MarshalBinary()
+						k4, _ := sk4.MarshalBinary()
+						if !bytes.Equal(b4, h.pkb) || !bytes.Equal(k4, h.skb) {
+							if vlib.Report(t, "C04/keygen/"+s.name+"/scheme-api", fmt.Sprintf("seed %x: Scheme().DeriveKey differs from the specification", seed)) {
+								return
+							}
+						}
+						vlib.Class(sub, "scheme-api")
+					}
+				case 2:
+					if s.ctx {
+						// over-long context: FIPS 204 Algorithm 2/3 return ⊥; documented as error / false
+						long := make([]byte, 256+rapid.IntRange(0, 40).Draw(t, "over"))
+						sig := make([]byte, s.sigSize)
+						_, err := s.signTo(h.sk, msg, long)
+						if err == nil {
+							if vlib.Report(t, "C04/sign/"+s.name+"/ctx-too-long", "SignTo accepted a context longer than 255 bytes") {
+								return
+							}
+						}
+						if s.verify(h.pk, msg, long, sig) || s.verify(h.pk, msg, long, h.sig) {
+							if vlib.Report(t, "C04/verify-verdict/"+s.name+"/ctx-too-long", "Verify accepted a context longer than 255 bytes") {
+								return
+							}
+						}
+						vlib.Class(sub, "ctx>255-refused")
+					}
+				}
+			})
+		})
+	}
+}
+
+var altKinds = []string{
+	"mutate-sig", "mutate-sig", "mutate-sig", "mutate-pk", "mutate-msg", "mutate-ctx", "other-key",
+	"z-set", "ctilde", "trailing", "truncated", "hint", "hint", "hint", "z-boundary", "z-boundary", "z-max-valid",
+}
+
+// strictness probes must be what they claim to be; otherwise the generator (not circl) is broken.
+func probeSanity(t vlib.TB, h *honest, kind string, sig []byte) bool {
+	p := h.s.p
+	strict, why := p.Verify(h.pkb, h.msg, h.ctx, sig)
+	fail := func(f string, a ...interface{}) bool {
+		t.Fatalf("SELFTEST-FAIL probe generator %s/%s: %s", h.s.name, kind, fmt.Sprintf(f, a...))
+		return false
+	}
+	lax := func(o mldsa.VerifyOpts) bool {
+		ok, _ := p.VerifyX(h.pkb, h.msg, h.ctx, sig, o)
+		return ok
+	}
+	switch kind {
+	case "z-boundary":
+		if strict || why != mldsa.BadZNorm || p.ZNorm(sig) != p.ZBound() {
+			return fail("expected a z-norm rejection at the bound, got %v/%s norm %d", strict, why, p.ZNorm(sig))
+		}
+		if !lax(mldsa.VerifyOpts{RelaxZ: true}) {
+			return fail("probe is not valid apart from the norm rule")
+		}
+	case "z-max-valid":
+		if !strict || p.ZNorm(sig) != p.ZBound()-1 {
+			return fail("expected a valid signature with norm bound-1, got %v/%s norm %d", strict, why, p.ZNorm(sig))
+		}
+	case "hint-swap", "hint-dup", "hint-pad":
+		if strict || why != mldsa.BadHint {
+			return fail("expected a hint-encoding rejection, got %v/%s", strict, why)
+		}
+		if !lax(mldsa.VerifyOpts{LaxHint: true}) {
+			return fail("probe is not valid apart from the canonical-hint rule")
+		}
+	case "hint-sop-decr", "hint-sop-big":
+		if strict || why != mldsa.BadHint {
+			return fail("expected a hint-encoding rejection, got %v/%s", strict, why)
+		}
+	case "trailing":
+		if strict || why != mldsa.BadLength {
+			return fail("expected a length rejection, got %v/%s", strict, why)
+		}
+		if !lax(mldsa.VerifyOpts{IgnoreTrailing: true}) {
+			return fail("probe is not valid apart from the length rule")
+		}
+	case "ctilde":
+		if strict {
+			return fail("altered c~ accepted by the reference")
+		}
+	}
+	return true
+}
+
+// verdict compares circl's Verify with the reference verdict on one triple.
+func verdict(t vlib.TB, h *honest, class, detail string, pkb, msg, ctx, sig []byte, nontrivial bool) {
+	s := h.s
+	sub := "verdict/" + s.name
+	vlib.Eval(sub)
+	want, why := s.p.Verify(pkb, msg, ctx, sig)
+	pk := h.pk
+	if !bytes.Equal(pkb, h.pkb) {
+		pk = s.unpackPK(pkb)
+	}
+	keyClass := class
+	if len(sig) > s.sigSize {
+		keyClass = "trailing-bytes"
+	}
+	var got bool
+	if pn, st := vlib.Catch(func() { got = s.verify(pk, msg, ctx, sig) }); pn != nil {
+		vlib.Report(t, "C04/panic/"+s.name+"/Verify/"+vlib.PanicClass(pn), fmt.Sprintf("class=%s %s seed %x: %v\n%s", class, detail, h.seed, pn, st))
+		return
+	}
+	vlib.Class(sub, class+"→"+why)
+	if got != want {
+		if vlib.Report(t, "C04/verify-verdict/"+s.name+"/"+keyClass, fmt.Sprintf("seed %x msg %s ctx %s alteration %s (%s): circl Verify = %v, specification = %v (%s); |sig| = %d (SignatureSize %d)", h.seed, vlib.Hex(h.msg), vlib.Hex(h.ctx), class, detail, got, want, why, len(sig), s.sigSize)) {
+			return
+		}
+	}
+	if nontrivial {
+		vlib.NonTrivial(sub, "strictness-probe", append(h.id(), []byte(class), sig)...)
+		vlib.Sample(sub, class, fmt.Sprintf("scheme=%s seed=%x |msg|=%d |ctx|=%d probe=%s %s → specification %v (%s), circl %v", s.name, h.seed, len(h.msg), len(h.ctx), class, detail, want, why, got))
+	}
+}
+
+// TestC04Verdict: Verify returns the reference verdict on honest, altered and
+// strictness-probe triples.
+func TestC04Verdict(t *testing.T) {
+	defer vlib.Done()
+	selftest(t)
+	for _, s := range schemes {
+		s := s
+		p := s.p
+		t.Run(s.name, func(t *testing.T) {
+			sub := "verdict/" + s.name
+			vlib.Check(t, vlib.N(60, 700), func(t *rapid.T) {
+				seed := vlib.EdgeBytes(t, 32, "seed")
+				msg := vlib.Msg(t, "msg")
+				ctx := drawCtx(t, s)
+				h, ok := makeHonest(t, s, seed, msg, ctx)
+				if !ok {
+					return
+				}
+				kind := rapid.SampledFrom(altKinds).Draw(t, "alt")
+				if kind == "mutate-ctx" && !s.ctx {
+					kind = "mutate-msg"
+				}
+				vlib.Class(sub, "alt="+kind)
+				pick := func(n int) int {
+					if n <= 1 {
+						return 0
+					}
+					return rapid.IntRange(0, n-1).Draw(t, "pick")
+				}
+				switch kind {
+				case "mutate-sig":
+					m := vlib.Mutate(t, h.sig, nil, "sig")
+					verdict(t, h, "mutate-sig", m.Kind, h.pkb, msg, ctx, m.Out, false)
+				case "mutate-pk":
+					pkb := append([]byte{}, h.pkb...)
+					i := rapid.IntRange(0, 8*len(pkb)-1).Draw(t, "bit")
+					pkb[i/8] ^= 1 << (i % 8)
+					verdict(t, h, "mutate-pk", fmt.Sprintf("bitflip@%d", i), pkb, msg, ctx, h.sig, false)
+				case "mutate-msg":
+					m := vlib.Mutate(t, msg, nil, "msg")
+					if bytes.Equal(m.Out, msg) {
+						m.Out = append(m.Out, 0)
+					}
+					verdict(t, h, "mutate-msg", m.Kind, h.pkb, m.Out, ctx, h.sig, false)
+				case "mutate-ctx":
+					var c2 []byte
+					switch rapid.IntRange(0, 3).Draw(t, "ctxalt") {
+					case 0:
+						c2 = append(append([]byte{}, ctx...), 0)
+					case 1:
+						if len(ctx) > 0 {
+							c2 = ctx[:len(ctx)-1]
+						} else {
+							c2 = []byte{1}
+						}
+					case 2:
+						// move the boundary between ctx and msg: same concatenation, other split
+						if len(msg) > 0 && len(ctx) < 255 {
+							c2 = append(append([]byte{}, ctx...), msg[0])
+							verdict(t, h, "ctx-msg-boundary", "first message byte moved into ctx", h.pkb, msg[1:], c2, h.sig, false)
+							return
+						}
+						c2 = []byte{0xff}
+					default:
+						c2 = vlib.Bytes(t, 0, 300, "ctx2")
+					}
+					if bytes.Equal(c2, ctx) {
+						c2 = append(c2, 7)
+					}
+					verdict(t, h, "mutate-ctx", fmt.Sprintf("|ctx'|=%d", len(c2)), h.pkb, msg, c2, h.sig, false)
+				case "other-key":
+					seed2 := append([]byte{}, seed...)
+					seed2[rapid.IntRange(0, 31).Draw(t, "sb")] ^= 1 << uint(rapid.IntRange(0, 7).Draw(t, "sbit"))
+					pkb2, _ := p.KeyGen(seed2)
+					verdict(t, h, "other-key", "", pkb2, msg, ctx, h.sig, false)
+				case "z-set":
+					i := rapid.IntRange(0, p.L-1).Draw(t, "zi")
+					j := rapid.IntRange(0, 255).Draw(t, "zj")
+					b := p.ZBound()
+					v := rapid.SampledFrom([]int64{b, -b, b - 1, -(b - 1), b + 1, p.Gamma1, -(p.Gamma1 - 1), 0}).Draw(t, "zv")
+					verdict(t, h, "z-set", fmt.Sprintf("z[%d][%d]=%d", i, j, v), h.pkb, msg, ctx, p.SetZ(h.sig, i, j, v), false)
+				case "ctilde":
+					sig := append([]byte{}, h.sig...)
+					i := rapid.IntRange(0, 8*p.CTilde-1).Draw(t, "cbit")
+					sig[i/8] ^= 1 << (i % 8)
+					if probeSanity(t, h, "ctilde", sig) {
+						verdict(t, h, "ctilde", fmt.Sprintf("bit %d", i), h.pkb, msg, ctx, sig, true)
+					}
+				case "trailing":
+					extra := vlib.Bytes(t, 1, 16, "junk")
+					if rapid.Bool().Draw(t, "zerojunk") {
+						for i := range extra {
+							extra[i] = 0
+						}
+					}
+					sig := append(append([]byte{}, h.sig...), extra...)
+					if probeSanity(t, h, "trailing", sig) {
+						verdict(t, h, "trailing", fmt.Sprintf("+%d bytes", len(extra)), h.pkb, msg, ctx, sig, true)
+					}
+				case "truncated":
+					n := rapid.IntRange(0, len(h.sig)-1).Draw(t, "tlen")
+					if rapid.Bool().Draw(t, "by1") {
+						n = len(h.sig) - 1
+					}
+					verdict(t, h, "truncated", fmt.Sprintf("to %d", n), h.pkb, msg, ctx, h.sig[:n], true)
+				case "hint":
+					total, _ := p.HintWeight(h.sig)
+					vlib.Class(sub, fmt.Sprintf("hint-weight-decile=%d", 10*total/(p.Omega+1)))
+					for _, pr := range p.HintProbes(h.sig, pick) {
+						if probeSanity(t, h, pr.Kind, pr.Sig) {
+							verdict(t, h, pr.Kind, "", h.pkb, msg, ctx, pr.Sig, true)
+						}
+					}
+				case "z-boundary", "z-max-valid":
+					target := p.ZBound()
+					if kind == "z-max-valid" {
+						target--
+					}
+					mp := msg
+					if !p.R31 {
+						mp = mldsa.Frame(msg, ctx)
+					}
+					ps := vlib.Bytes(t, 8, 8, "probeseed")
+					sig, att := p.ProbeZ(h.skb, mp, target, ps, 4000)
+					if sig == nil {
+						vlib.Class(sub, "z-probe-not-found")
+						return
+					}
+					vlib.ClassN(sub, "z-probe-attempts", int64(att))
+					if probeSanity(t, h, kind, sig) {
+						verdict(t, h, kind, fmt.Sprintf("planted after %d attempts, ||z||=%d", att, target), h.pkb, msg, ctx, sig, true)
+					}
+				}
+			})
+		})
+	}
 }
